@@ -608,6 +608,7 @@ func checkC16(c *Ctx) {
 		c.checkThriftStruct("O1 writer-reader-table", "m3/thrift/v2", t)
 	}
 	c.checkM3ClientSend("O1 client-send")
+	c.checkThriftErrorDiscipline("O1 error-discipline")
 	c.checkCalcTransport("O2 calc-transport")
 	c.checkCalculateSize("O3 calculate-size")
 	c.checkMaxPlaceholders("O4 max-placeholder")
@@ -1102,4 +1103,147 @@ func (c *Ctx) requiredCheckedSSA(short, typ string, id int) bool {
 		}
 	}
 	return false
+}
+
+// checkThriftErrorDiscipline (O1): in the generated Read / Write / readFieldN / writeFieldN methods of
+// the five v2 structs and in the client's send function every error a protocol call (or a nested
+// struct's Read / Write) returns is tested, and on the edge where it is non-nil every reachable return
+// hands back a non-nil error on that path - a skeleton with an inverted or dropped test encodes a
+// truncated message as success, or reports an intact message as broken.
+func (c *Ctx) checkThriftErrorDiscipline(rule string) {
+	const pk = "m3/thrift/v2"
+	errT := types.Universe.Lookup("error").Type().Underlying().(*types.Interface)
+	isErr := func(t types.Type) bool {
+		if t == nil {
+			return false
+		}
+		_, isI := t.Underlying().(*types.Interface)
+		return isI && types.Implements(t, errT)
+	}
+	structs := map[string]bool{"MetricValue": true, "MetricTag": true, "Metric": true, "MetricBatch": true, "M3EmitMetricBatchV2Args": true}
+	nSites, nBad := 0, 0
+	ord := map[string]int{}
+	for _, fn := range c.funcsOfPkg(pk) {
+		fn := fn
+		if fn.Signature.Recv() == nil {
+			continue
+		}
+		nt, _ := deref(fn.Signature.Recv().Type()).(*types.Named)
+		if nt == nil {
+			continue
+		}
+		name := fn.Name()
+		inScope := structs[nt.Obj().Name()] && (name == "Read" || name == "Write" || fieldFnRe.MatchString(name))
+		if nt.Obj().Name() == "M3Client" && name == "sendEmitMetricBatchV2" {
+			inScope = true
+		}
+		if !inScope || fn.Signature.Results().Len() == 0 {
+			continue
+		}
+		c.sawFunc(c.fnKey(fn))
+		instrsOf(fn, func(in ssa.Instruction) {
+			call, ok := in.(*ssa.Call)
+			if !ok {
+				return
+			}
+			// protocol calls (invoke on TProtocol) and nested Read/Write/readField/writeField
+			isProto := false
+			if call.Call.IsInvoke() {
+				if n2, isN := call.Call.Value.Type().(*types.Named); isN && n2.Obj().Name() == "TProtocol" {
+					isProto = true
+				}
+			} else if g := staticCallee(call); g != nil && g.Pkg == fn.Pkg && g.Signature.Recv() != nil {
+				gn := g.Name()
+				if gn == "Read" || gn == "Write" || fieldFnRe.MatchString(gn) {
+					isProto = true
+				}
+			}
+			if !isProto {
+				return
+			}
+			// the error result
+			res := call.Call.Signature().Results()
+			if res.Len() == 0 || !isErr(res.At(res.Len()-1).Type()) {
+				return
+			}
+			var errVal ssa.Value
+			if res.Len() == 1 {
+				errVal = call
+			} else if call.Referrers() != nil {
+				for _, r := range *call.Referrers() {
+					if ex, isEx := r.(*ssa.Extract); isEx && ex.Index == res.Len()-1 {
+						errVal = ex
+					}
+				}
+			}
+			nSites++
+			mname := ""
+			if call.Call.IsInvoke() {
+				mname = call.Call.Method.Name()
+			} else if g := staticCallee(call); g != nil {
+				mname = g.Name()
+			}
+			ord[c.fnKey(fn)+mname]++
+			key := fmt.Sprintf("%s:%s#%d", c.fnKey(fn), mname, ord[c.fnKey(fn)+mname])
+			if errVal == nil {
+				nBad++
+				c.bad(rule, key, call.Pos(), "the error of a protocol call is dropped: a failed write / read is reported as success", c.describe(call))
+				return
+			}
+			// a function whose last statement is `return proto.X()` hands the error on directly
+			handedOn := false
+			for _, r := range returnsOf(fn) {
+				for _, va := range resultValues(r, len(r.Results)-1) {
+					if valueFlowsFrom(va.Val, errVal) && va.At.Block() == call.Block() {
+						handedOn = true
+					}
+				}
+			}
+			tested := false
+			okEdge := true
+			for _, b := range fn.Blocks {
+				iff, isIf := condOf(b)
+				if !isIf {
+					continue
+				}
+				op, x, y, isCmp := cmpOf(iff.Cond)
+				if !isCmp || (op != token.EQL && op != token.NEQ) {
+					continue
+				}
+				if isNilConst(x) {
+					x, y = y, x
+				}
+				if !isNilConst(y) || !valueFlowsFrom(x, errVal) || !(b == call.Block() || call.Block().Dominates(b)) {
+					continue
+				}
+				tested = true
+				failIdx := b2i(op == token.EQL) // successor taken when err != nil
+				rets := returnsFromEdge(b, failIdx)
+				if len(rets) == 0 {
+					okEdge = false
+				}
+				for _, ra := range rets {
+					rr := ra.ret.Results
+					if len(rr) == 0 || isNilConst(ra.st.resolve(rr[len(rr)-1])) {
+						okEdge = false
+					}
+				}
+			}
+			if handedOn && !tested {
+				return
+			}
+			if !tested || !okEdge {
+				nBad++
+				why := "is never tested"
+				if tested {
+					why = "is tested, but on the edge where it is non-nil the function can still return a nil error (inverted or ineffective test)"
+				}
+				c.bad(rule, key, call.Pos(), "the error of a protocol call "+why+": a truncated message is encoded / decoded as success, or an intact one is reported as broken", c.describe(call))
+			}
+		})
+	}
+	if nBad == 0 {
+		c.ok(rule, "m3/thrift/v2", token.NoPos, fmt.Sprintf("all %d protocol-call errors in the generated Read / Write methods and the client's send are tested and handed back on the failing edge", nSites))
+	}
+	c.floor(rule, nSites, 100)
 }
